@@ -53,7 +53,11 @@ UNVERIFIED = {"C13": [
     "the models of std/rpds container equality (slice, Option<Box<_>>, Rc<T: Eq>, rpds::Vector, rpds::HashTrieMap) are hand-written reference implementations of the library definitions (element-wise / key-wise equality), verified here but ASSUMED to be what the libraries do",
     "how values are printed ('the same printed form')"]}
 
+_CROSS = open(os.path.join(os.path.dirname(os.path.abspath(__file__)), "cross_types.gdn"), encoding="utf-8").read()
 WITNESSES = [
+    {"match": r".", "kind": "run", "props": ["C13"], "input": _CROSS,
+     "expect": {"stdout": "False True\n" * 8 + "True False\nFalse True\nTrue False"},
+     "note": "values of different enums / structs with the same variant position, field names and payloads are different values, alone or nested"},
     {"match": r"eq\.post\[(Float|different_variants)\]", "kind": "run", "props": ["C13"],
      "input": "println(string_repr(1.5 == 1.5))\nprintln(string_repr(1.5 != 1.5))\nprintln(string_repr([1.5] == [1.5]))\nprintln(string_repr(1.5 == 2.5))",
      "expect": {"stdout": "True\nFalse\nTrue\nFalse"}, "note": "== is reflexive on finite floats"},
